@@ -31,7 +31,7 @@
                                           "ANY", "NOEXIST" (insert only) or "EXIST" (modify only)
      [op |-> "lookup", d, body, els]      with d.lookup() as (value, Else): body   with Else: els
    Locations: [k |-> "a", id, i] element i of array variable id (on the CPU of the run);
-     [k |-> "h", id] hash variable; [k |-> "key" / "val", id, i] member i of the key / value that the
+     [k |-> "h", id] hash variable; [k |-> "l", id] local (stack) variable of the program, fresh in every run; [k |-> "key" / "val", id, i] member i of the key / value that the
      program keeps on its stack for Dict id; [k |-> "lk", i] member i of the looked-up entry.
    Storing a value its destination cannot represent leaves the destination Unknown - the properties
    speak about values being read back UNCHANGED, not about conversions.                         *)
@@ -55,7 +55,7 @@ AllFit(ws, cs) == Len(ws) = Len(cs) /\ \A i \in DOMAIN ws : IsWord(ws[i]) /\ Fit
 Copies(D, v) == IF D.avars[v].percpu THEN D.ncpu ELSE 1
 Rep(x, n) == Mat([i \in 1 .. n |-> x], n)
 
-AInit(D) == Mat([v \in 1 .. Len(D.avars) |-> Rep(Rep(Zero, D.avars[v].f.n), Copies(D, v))], Len(D.avars))
+AInit(D) == Mat([v \in 1 .. Len(D.avars) |-> Rep(Rep(Zero, Len(VLetters(D.avars[v].f))), Copies(D, v))], Len(D.avars))
 HInit(D) == Mat([v \in 1 .. Len(D.hvars) |-> Into(D.hvars[v].def, D.hvars[v].c)], Len(D.hvars))
 EmptyDict == [known |-> TRUE, m |-> <<>>]
 HavocDict == [known |-> FALSE, m |-> <<>>]
@@ -73,14 +73,18 @@ Count(f) == Cardinality(DOMAIN f)
 Cpu(D, S, v) == IF D.avars[v].percpu THEN S.cpu ELSE 1
 LkDict(S) == S.lk[1]
 LkKey(S) == S.lk[2]
+(* local variables of the program (its stack): [c |-> letter]; absent in declarations without any *)
+LVars(D) == IF "lvars" \in DOMAIN D THEN D.lvars ELSE <<>>
 LocFmt(D, S, l) ==
-    CASE l.k = "a" -> D.avars[l.id].f.c
+    CASE l.k = "l" -> LVars(D)[l.id].c
+      [] l.k = "a" -> VLetters(D.avars[l.id].f)[l.i]
       [] l.k = "h" -> D.hvars[l.id].c
       [] l.k = "key" -> D.dicts[l.id].key[l.i]
       [] l.k = "val" -> D.dicts[l.id].val[l.i]
       [] l.k = "lk" -> IF S.lk = <<>> THEN "q" ELSE D.dicts[LkDict(S)].val[l.i]
 Read(D, S, l) ==
-    CASE l.k = "a" -> S.a[l.id][Cpu(D, S, l.id)][l.i]
+    CASE l.k = "l" -> S.loc[l.id]
+      [] l.k = "a" -> S.a[l.id][Cpu(D, S, l.id)][l.i]
       [] l.k = "h" -> S.h[l.id]
       [] l.k = "key" -> S.key[l.id][l.i]
       [] l.k = "val" -> S.val[l.id][l.i]
@@ -88,7 +92,8 @@ Read(D, S, l) ==
                        ELSE S.d[LkDict(S)].m[LkKey(S)][l.i]
 Write(D, S, l, v) ==
     LET w == Into(v, LocFmt(D, S, l)) IN
-    CASE l.k = "a" -> [S EXCEPT !.a[l.id][Cpu(D, S, l.id)][l.i] = w]
+    CASE l.k = "l" -> [S EXCEPT !.loc[l.id] = w]
+      [] l.k = "a" -> [S EXCEPT !.a[l.id][Cpu(D, S, l.id)][l.i] = w]
       [] l.k = "h" -> [S EXCEPT !.h[l.id] = w]
       [] l.k = "key" -> [S EXCEPT !.key[l.id][l.i] = w]
       [] l.k = "val" -> [S EXCEPT !.val[l.id][l.i] = w]
@@ -142,15 +147,16 @@ UnknownTuple(n) == Rep(Unknown, n)
 Run(D, a, h, d, cpu) ==
     ExecSeq(D, D.prog, 1,
             [a |-> a, h |-> h, d |-> d, cpu |-> cpu, lk |-> <<>>,
+             loc |-> UnknownTuple(Len(LVars(D))),      \* a fresh stack for every run
              key |-> Mat([i \in 1 .. Len(D.dicts) |-> UnknownTuple(Len(D.dicts[i].key))], Len(D.dicts)),
              val |-> Mat([i \in 1 .. Len(D.dicts) |-> UnknownTuple(Len(D.dicts[i].val))], Len(D.dicts))])
 (* nothing is known any more (a run that did not complete) *)
-HavocA(D) == Mat([v \in 1 .. Len(D.avars) |-> Rep(Rep(Unknown, D.avars[v].f.n), Copies(D, v))], Len(D.avars))
+HavocA(D) == Mat([v \in 1 .. Len(D.avars) |-> Rep(Rep(Unknown, Len(VLetters(D.avars[v].f))), Copies(D, v))], Len(D.avars))
 HavocH(D) == Rep(Unknown, Len(D.hvars))
 HavocD(D) == Rep(HavocDict, Len(D.dicts))
 
 (* ---- Python-side operations: acceptance of an observed outcome, and the state afterwards ------ *)
-Letters(D, v) == Rep(D.avars[v].f.c, D.avars[v].f.n)
+Letters(D, v) == VLetters(D.avars[v].f)
 (* array variable *)
 PyWriteAOk(D, v, elems) == ~D.avars[v].percpu /\ AllFit(elems, Letters(D, v))
 PyReadAOk(D, a, v, obs) == /\ Len(obs) = Copies(D, v)
